@@ -20,11 +20,13 @@ import Mathlib.Tactic.SplitIfs
                               `[-negMax, posMax]`, energies accumulate `pwr · dtI`, `state.dt := dtI`
     2. `C14_clip`             `-negMax ≤ pwrWhlOut ≤ posMax`; unclipped iff the raw demand is inside;
                               saturates at the bound it crosses
-    3. `C14_negative_rejected`, `C14_accepted_nonneg`   a negative CURRENT sample is an `Err`
+    3. `C14_negative_rejected`, `C14_first_sample_rejected`, `C14_accepted_nonneg`,
+       `C14_walk_samples_nonneg`   a negative CURRENT or PREVIOUS sample is an `Err`; every sample
+                              consumed by an accepted walk, including `speed[0]`, is non-negative
     4. `C14_follows_trace`    accepted `ssStep`: `time = tCur`, `speed = vCur`, the consist is solved
                               for exactly the train's wheel power over the trace's own step size
-    5. `C14_first_sample_unchecked`, `C14_first_sample_unchecked_whole_step`  REMARK / finding: the sign of the PREVIOUS sample is never
-                              inspected, so `speed[0] < 0` is accepted (the Rust loop starts at `i = 1`)
+    5. `C14_first_sample_unchecked`  REMARK: `solve_required_pwr` + the position update ALONE accept a
+                              negative previous sample; the whole step rejects it since the fix in /repo
     6. `C14_rate_limit_uses_previous_dt`  REMARK: the rate-limited traction bound is computed with the
                               step size of the PREVIOUS step (`state.dt` before it is overwritten)
   The whole-run version ("at every step time and speed equal the trace") is `C12_ss_run` in C12.lean.
@@ -179,15 +181,77 @@ theorem C14_negative_rejected : C14_negative_rejected_statement := by
   intro α _ _ _ kc c g rho t res con s vPrev vCur tPrev tCur hv
   exact ssStep_neg_err kc c g rho t res con s vPrev vCur tPrev tCur hv
 
+/-- **A negative previous sample is an `Err` too** (second `ensure!` of the repaired `solve_step`;
+    with the loop starting at `i = 1` this is what tests `speed[0]`). -/
+def C14_first_sample_rejected_statement : Prop :=
+  ∀ (α : Type) [Field α] [LinearOrder α] [IsStrictOrderedRing α]
+    (kc : Consts α) (c : TrConsts α) (g rho : α) (t : Tpc α) (res : ResStrap α) (con : Consist α)
+    (s : TrainState α) (vPrev vCur tPrev tCur : α),
+    vPrev < 0 → ∃ e, ssStep kc c g rho t res con s vPrev vCur tPrev tCur = .err e
+
+theorem C14_first_sample_rejected : C14_first_sample_rejected_statement := by
+  intro α _ _ _ kc c g rho t res con s vPrev vCur tPrev tCur hv
+  rcases lt_or_ge vCur 0 with hc | hc
+  · exact ⟨_, ssStep_neg_err kc c g rho t res con s vPrev vCur tPrev tCur hc⟩
+  · exact ⟨_, ssStep_prev_neg_err kc c g rho t res con s vPrev vCur tPrev tCur hc hv⟩
+
+/-- non-vacuity: the formerly accepted whole step `speed = [−3, 1]` (diesel consist) is now an `Err` -/
+example : ssStep ExW.kc ExW.c ExW.g ExW.rho ExW.tpc ExW.strap ExW.con ExW.s (-3) 1 0 1
+    = .err "negative-speed-prev" :=
+  ssStep_prev_neg_err _ _ _ _ _ _ _ _ _ _ _ _ (by norm_num) (by norm_num)
+
 def C14_accepted_nonneg_statement : Prop :=
   ∀ (α : Type) [Field α] [LinearOrder α] [IsStrictOrderedRing α]
     (kc : Consts α) (c : TrConsts α) (g rho : α) (t : Tpc α) (res res' : ResStrap α)
     (con con' : Consist α) (s s' : TrainState α) (vPrev vCur tPrev tCur : α),
-    ssStep kc c g rho t res con s vPrev vCur tPrev tCur = .ok (con', res', s') → 0 ≤ vCur
+    ssStep kc c g rho t res con s vPrev vCur tPrev tCur = .ok (con', res', s') →
+      0 ≤ vPrev ∧ 0 ≤ vCur
 
 theorem C14_accepted_nonneg : C14_accepted_nonneg_statement := by
   intro α _ _ _ kc c g rho t res res' con con' s s' vPrev vCur tPrev tCur h
-  exact (ssStep_inv h).1
+  obtain ⟨hc, hp, _⟩ := ssStep_inv h
+  exact ⟨hp, hc⟩
+
+/-- **Every sample consumed by an accepted walk is non-negative, including the first.**
+    `ssWalk` (Lemmas/TrainL.lean) is `SetSpeedTrainSim::walk`: a fold of `ssStep` over the samples
+    after `p = (time[0], speed[0])`. -/
+def C14_walk_samples_nonneg_statement : Prop :=
+  ∀ (α : Type) [Field α] [LinearOrder α] [IsStrictOrderedRing α]
+    (kc : Consts α) (c : TrConsts α) (g rho : α) (t : Tpc α)
+    (st st' : ResStrap α × Consist α × TrainState α) (p : α × α) (tr : List (α × α)),
+    ssWalk kc c g rho t st p tr = .ok st' →
+      -- the guard `tr ≠ []` is forced: a one-sample trace performs no step and inspects nothing
+      (tr ≠ [] → 0 ≤ p.2) ∧ ∀ q ∈ tr, 0 ≤ q.2
+
+theorem C14_walk_samples_nonneg : C14_walk_samples_nonneg_statement := by
+  intro α _ _ _ kc c g rho t st st' p tr
+  induction tr generalizing st p with
+  | nil => intro _; exact ⟨fun h => absurd rfl h, fun q hq => by simp at hq⟩
+  | cons q tr ih =>
+    intro h
+    obtain ⟨res, con, s⟩ := st
+    simp only [ssWalk] at h
+    cases hs : ssStep kc c g rho t res con s p.2 q.2 p.1 q.1 with
+    | ok x =>
+      obtain ⟨con₁, res₁, s₁⟩ := x
+      rw [hs] at h
+      obtain ⟨hc, hp, _⟩ := ssStep_inv hs
+      obtain ⟨_, hall⟩ := ih (res₁, con₁, s₁) q h
+      refine ⟨fun _ => hp, fun q' hq' => ?_⟩
+      rcases List.mem_cons.mp hq' with rfl | hq'
+      · exact hc
+      · exact hall q' hq'
+    | err e => rw [hs] at h; cases h
+    | panic e => rw [hs] at h; cases h
+
+/-- non-vacuity: the accepted three-step walk 1 → 2 → 2 → 1 m/s; and the same walk with `speed[0] = −3`
+    is rejected at its first step -/
+example :
+    (ssWalk ExW.kc ExW.c ExW.g ExW.rho ExW.tpc (ExW.strap, ExW.con, ExW.s) (0, 1)
+      [(1, 2), (3, 2), (4, 1)]).isOk = true ∧
+    (ssWalk ExW.kc ExW.c ExW.g ExW.rho ExW.tpc (ExW.strap, ExW.con, ExW.s) (0, -3)
+      [(1, 1), (3, 2), (4, 1)]).isOk = false := by
+  constructor <;> decide +kernel
 
 /-! ## 4. The step follows the trace -/
 
@@ -212,7 +276,7 @@ def C14_follows_trace_statement : Prop :=
 
 theorem C14_follows_trace : C14_follows_trace_statement := by
   intro α _ _ _ kc c g rho t res res' con con' s s' vPrev vCur tPrev tCur h
-  obtain ⟨_, con₁, r₁, s₁, h1, h2, h3, h4, h5⟩ := ssStep_inv h
+  obtain ⟨_, _, con₁, r₁, s₁, h1, h2, h3, h4, h5⟩ := ssStep_inv h
   have P := ssRequiredPwr_inv h3
   have I := ssIntegrate_inv h5
   have hw : s₁.k.pwrWhlOut = s'.k.pwrWhlOut := I.pwrWhlOut.symm
@@ -236,13 +300,17 @@ example : ssStep ExW.kc ExW.c ExW.g ExW.rho ExW.tpc ExW.strap ExW.con ExW.s 1 (-
     = .err "negative-speed" :=
   C14_negative_rejected ℚ _ _ _ _ _ _ _ _ _ _ _ _ (by norm_num)
 
-/-! ## 5. Remark / finding: the first trace sample is never sign-checked -/
+/-! ## 5. Remark: the power and position updates alone do not look at the sign of the previous sample -/
 
-/-- **`speed[0]` is never tested.**  `SetSpeedTrainSim::walk` starts at `i = 1` and `solve_step` tests
-    `speed[i]` only; `ssStep` tests `vCur` only.  The kinematic core of a step accepts a negative
-    previous sample: with `speed[0] = −30`, `speed[1] = 10` (mean −10 m/s over 2 s) both
-    `solve_required_pwr` and the position update succeed and the train moves 20 m BACKWARDS
-    (front 500 m → 480 m) although every checked sample is non-negative. -/
+/-- **Kinematic-only observation (still true of `ssRequiredPwr`/`ssIntegrate` ALONE).**  With
+    `speed[0] = −30`, `speed[1] = 10` (mean −10 m/s over 2 s) both `solve_required_pwr` and the position
+    update succeed and would move the train 20 m BACKWARDS (front 500 m → 480 m).
+    This was a defect of the whole step while `solve_step` tested `speed[i]` only and the loop started at
+    `i = 1` (`speed[0]` was never tested).  It is REPAIRED in /repo: `solve_step` now also rejects a
+    negative previous sample, the model's `ssStep` has the second `ensure`, and the whole step returns
+    `Err` (`C14_first_sample_rejected`, `C14_walk_samples_nonneg`).  The former theorem
+    `C14_first_sample_unchecked_whole_step` (a whole accepted step with `speed[0] = −3`) is false of
+    the repaired model and has been removed. -/
 theorem C14_first_sample_unchecked :
     (-30 : ℚ) < 0 ∧ (0 : ℚ) ≤ 10 ∧
     okVal ((ssRequiredPwr Ex.c Ex.cs Ex.s (-30) 10 2).bind fun s₁ =>
@@ -252,20 +320,9 @@ theorem C14_first_sample_unchecked :
       = some ((9, 10, 480, 280), (120, 5, 80, -40000)) := by
   refine ⟨by norm_num, by norm_num, by decide +kernel⟩
 
-/-- the same on a WHOLE step (diesel consist, every check on): `speed[0] = −3`, `speed[1] = 1` is
-    accepted; the train moves 1 m backwards (500 → 499 m, `total_dist` +1 m) and the consist is asked
-    for −5 W of dynamic braking. -/
-theorem C14_first_sample_unchecked_whole_step :
-    okVal ((ssStep ExW.kc ExW.c ExW.g ExW.rho ExW.tpc ExW.strap ExW.con ExW.s (-3) 1 0 1).bind fun x =>
-      pure [x.2.2.k.time, x.2.2.r.speed, x.2.2.r.offset, x.2.2.k.totalDist, x.2.2.k.pwrWhlOut,
-            x.1.state.pwrOut])
-      = some [1, 1, 499, 1, -5, -5] := by
-  decide +kernel
-
-/-- the general form: nothing in an accepted `ssStep` constrains the sign of `vPrev` — the only
-    sign test is on `vCur` (`ssStep_inv` lists every check made). If the sub-results for a trace step
-    with `vPrev ≥ 0` are accepted by the consist, the integration `ssIntegrate` for ANY `vPrev` is
-    accepted as long as the new front stays on the path. -/
+/-- the general form, at the `ssIntegrate` level: the position update is accepted for ANY `vPrev`
+    (negative included) as long as the new front stays on the path — the sign tests live in `ssStep`
+    only (`ssStep_inv` lists every check made). -/
 theorem ssIntegrate_any_vPrev {α : Type} [Field α] [LinearOrder α] [IsStrictOrderedRing α]
     (c : TrConsts α) (lps : List (LinkPt α)) (s : TrainState α) (vPrev vCur tCur : α)
     (i : Nat) (hi : i + 1 < lps.length)
